@@ -5,6 +5,7 @@ mod common;
 mod e2e;
 mod gen;
 mod oracle;
+mod probe;
 mod unit;
 
 use hxlib::util::{Args, Rng, Sink};
@@ -20,12 +21,16 @@ fn main() {
                 unit::run(&args, &mut sink, &mut rng);
             }
             if only != "unit" {
+                // its own stream of random choices: a case index means the same input with and without the unit arm
+                let mut rng = Rng::new(args.seed ^ 0xE2E0_0000);
                 e2e::run(&args, &mut sink, &mut rng);
             }
             sink.notes.push("unit: real files (Int columns holding the row number) vs model: writer paging, per-page scheduling (messages + recorded I/O), batches of every read, struct job messages, footer/tail bytes; e2e: random schemas/data/options, 2.0/2.1/2.2, full/range/ranges/indices/projection reads vs the Arrow input".into());
             sink.finish();
             0
         }
+        "probe-dup" => probe::dup(&args),
+        "probe-shapes" => probe::shapes(&args),
         _ => {
             eprintln!("unknown subcommand {sub}");
             2
